@@ -65,6 +65,25 @@ def poll(o, x):
     r = o.meth(x)
     return r
 
+class Node:
+    def __init__(self, k, nxt=None):
+        self.k = k
+        self.nxt = nxt
+
+    def visit(self, x):
+        sub = self.nxt.visit(x) if self.nxt is not None else 0
+        y = x + self.k
+        return y + sub
+
+def walk(n, x):
+    r = n.visit(x)
+    return r
+
+N3 = Node(30)
+N2 = Node(20, N3)
+N1 = Node(10, N2)
+NODES = [N1, N2, N3]
+
 class This:
     def __init__(this, k):
         this.k = k
@@ -154,6 +173,32 @@ def build(case):
             text, population = ("obj.meth > y" if form == "instance" else "poll > obj.meth > y"), POP
             fires = lambda o: o is probed  # noqa: E731
             selfname = "this" if pi == 7 else "self"
+        elif form == "twice":
+            # the same selector text through two different objects, one probe after the other
+            pa = pick(psel, 10)
+            if fixed is not None:
+                assume(pa == fixed)
+            pb = pick(calls[0], 10)
+            calls = calls[1:]
+            assume(pa != pb and pa != 5 and pb != 5)
+            first_obj = POP[pa]
+            with NoTracing():
+                ns["obj"] = first_obj
+                p0 = probing(select("obj.meth > y", env=ns))
+                p0.__enter__()
+                first_obj.meth(0)
+                p0.__exit__(None, None, None)
+            probed = POP[pb]
+            ns["obj"] = probed
+            text, population = "obj.meth > y", POP
+            fires = lambda o: o is probed  # noqa: E731
+            selfname = "this" if pb == 7 else "self"
+        elif form == "recursive_step":
+            which = pick(psel, 3)
+            probed = ns["NODES"][which]
+            ns["obj"] = probed
+            text, population = "walk > obj.visit > y", ns["NODES"]
+            fires = lambda o: o is probed  # noqa: E731
         elif form == "dotted":
             which = pick(psel, 2)
             probed = POP[0] if which == 0 else POP[2]
@@ -201,6 +246,17 @@ def build(case):
             for csel in calls:
                 ci = pick(csel, len(population))
                 o = population[ci]
+                if form == "recursive_step":
+                    # walking from o visits o and every node after it; the probed node fires iff it is o or after o
+                    chain, cur = [], o
+                    while cur is not None:
+                        chain.append(cur)
+                        cur = cur.nxt
+                    rv = ns["walk"](o, x)
+                    require(rv == sum(x + n_.k for n_ in chain), "walk returned a wrong value", {"fp": f"C13:{form}:return-value"})
+                    if any(n_ is probed for n_ in chain):
+                        exp.append((x + probed.k, probed))
+                    continue
                 if form == "property":
                     rv, want = o.val, o.k + 300
                 else:
@@ -255,7 +311,10 @@ def cases(tier, seed):
     cs = []
     for form in ("class", "this_class", "dotted", "wrapped_class", "wrapped_instance", "property"):
         cs.append({"id": form, "params": {"form": form, "ncalls": min(nc, 3)}, "budget_s": 3000 if th else 200})
+    cs.append({"id": "recursive_step", "params": {"form": "recursive_step", "ncalls": nc}, "budget_s": 3000 if th else 200})
     for probed in range(10):
+        cs.append({"id": f"twice:first={probed}", "params": {"form": "twice", "ncalls": nc + 1, "probed": probed},
+                   "budget_s": 3000 if th else 200})
         cs.append({"id": f"instance:probed={probed}", "params": {"form": "instance", "ncalls": nc, "probed": probed},
                    "budget_s": 3000 if th else 200})
         cs.append({"id": f"nested_step:probed={probed}", "params": {"form": "nested_step", "ncalls": nc, "probed": probed},
